@@ -123,6 +123,14 @@ class Ctx:
                             return fd["ty"]
         if s[0] == "call" and s[1] and LEN_CALLS.search(s[1]):
             return "usize"
+        if s[0] == "field" and s[2] == "0" and s[1][0] == "downcast" and s[1][2] == "Some":
+            # payload of an Option<T>
+            bt = (self.ty_of(s[1][1]) or "").strip().lstrip("&").strip()
+            m = re.match(r"^(?:std::option::)?Option<(.*)>$", bt)
+            if m:
+                return m.group(1)
+        if s[0] == "downcast":
+            return self.ty_of(s[1])
         return None
 
     def loop_bounds(self, s):
@@ -151,6 +159,9 @@ class Ctx:
                 kinds.append("iter")
                 it = inner
                 break
+            if self.split_count_atom(it) is not None:
+                kinds.append("split")
+                break
             if nm.endswith("Iterator::enumerate"):
                 kinds.append("enumerate")
             elif nm.endswith("Iterator::rev"):
@@ -160,6 +171,11 @@ class Ctx:
             else:
                 return None
             it = strip_refs(it[2][0])
+        if enum and kinds == ["enumerate", "split"]:
+            # position of a piece of `s.split(c)`: below the number of pieces of that same split
+            a = self.split_count_atom(it)
+            self.nonneg.add(a)
+            return Lin(k=0), Lin({a: 1})
         if enum:
             if "enumerate" not in kinds:
                 return None
@@ -173,11 +189,31 @@ class Ctx:
             return self.lin(it[2][0]), self.lin(it[2][1])
         return None
 
+    def split_count_atom(self, it):
+        """atom standing for the number of pieces of `<param>.split(<constant>)`, for a string parameter the function never
+        reassigns: splitting the same immutable text by the same constant twice gives the same pieces, so the count tested
+        before a loop bounds the positions `enumerate()` hands out in it.  None for anything else."""
+        if not (it[0] == "call" and it[1] and re.search(r"core::str::<impl str>::(split|split_terminator|splitn)$", it[1]) and len(it[2]) == 2):
+            return None
+        recv, pat = strip_refs(it[2][0]), strip_refs(it[2][1])
+        while recv[0] in ("ref", "deref"):
+            recv = recv[1]
+        if recv[0] != "arg" or pat[0] != "const":
+            return None
+        if self.B.defs().get(recv[2]):
+            return None
+        return "count(%s.split(%s))" % (recv[1], pat[1])
+
     def lin(self, s, depth=0):
         """linear form of an integer-valued term"""
         t = s[0]
         if depth > 30:
             return Lin({atom_of(s): 1})
+        if t == "call" and s[1] and s[1].endswith("Iterator::count") and len(s[2]) == 1:
+            a = self.split_count_atom(strip_refs(s[2][0]))
+            if a is not None:
+                self.nonneg.add(a)
+                return Lin({a: 1})
         if t == "const" and isinstance(s[1], int) and not isinstance(s[1], bool):
             return Lin(k=s[1])
         if t == "field" and s[2] == "0" and s[1][0] == "bin" and s[1][1].endswith("WithOverflow"):
